@@ -2,7 +2,7 @@
 //! here; the outcome (ok / err / panic) and the projected state are logged for TLC to judge.
 use crate::concretise::*;
 use crate::model::*;
-use serde_json::Value;
+use serde_json::{json, Value};
 use stam::*;
 use std::panic::{catch_unwind, AssertUnwindSafe};
 
@@ -77,6 +77,101 @@ pub fn annotation_builder<'a>(a: &Value, style: IdStyle) -> AnnotationBuilder<'a
     b
 }
 
+/// STAM JSON of a reference (identifier; handles become temporary identifiers); None = the field is left out
+fn ref_json(r: &Ref, letter: char, style: IdStyle) -> Option<Value> {
+    match r.by.as_str() {
+        "id" => Some(json!(style.conc(&r.id))),
+        "h" => Some(json!(format!("!{}{}", letter, (r.h - 1).max(0)))),
+        "temp" => Some(json!(format!("!{}{}", r.tl, r.tn))),
+        _ => None,
+    }
+}
+
+fn put(obj: &mut Value, field: &str, v: Option<Value>) {
+    if let Some(v) = v {
+        obj[field] = v;
+    }
+}
+
+fn offset_json(o: &Off) -> Value {
+    let cur = |k: &str, v: i64| json!({"@type": if k == "B" { "BeginAlignedCursor" } else { "EndAlignedCursor" }, "value": v});
+    json!({"@type": "Offset", "begin": cur(&o.bk, o.bv), "end": cur(&o.ek, o.ev)})
+}
+
+fn selector_json(tb: &TB, style: IdStyle) -> Value {
+    let mut v = json!({});
+    match tb.kind.as_str() {
+        "Text" => {
+            v["@type"] = json!("TextSelector");
+            put(&mut v, "resource", ref_json(&tb.a, 'R', style));
+            v["offset"] = offset_json(&tb.off);
+        }
+        "Res" => {
+            v["@type"] = json!("ResourceSelector");
+            put(&mut v, "resource", ref_json(&tb.a, 'R', style));
+        }
+        "Ann" => {
+            v["@type"] = json!("AnnotationSelector");
+            put(&mut v, "annotation", ref_json(&tb.a, 'A', style));
+            if tb.off.has {
+                v["offset"] = offset_json(&tb.off);
+            }
+        }
+        "Set" => {
+            v["@type"] = json!("DataSetSelector");
+            put(&mut v, "dataset", ref_json(&tb.a, 'S', style));
+        }
+        "Key" => {
+            v["@type"] = json!("DataKeySelector");
+            put(&mut v, "dataset", ref_json(&tb.a, 'S', style));
+            put(&mut v, "key", ref_json(&tb.b, 'K', style));
+        }
+        "Data" => {
+            v["@type"] = json!("AnnotationDataSelector");
+            put(&mut v, "dataset", ref_json(&tb.a, 'S', style));
+            put(&mut v, "data", ref_json(&tb.b, 'D', style));
+        }
+        kind => {
+            v["@type"] = json!(format!("{}Selector", kind));
+            v["selectors"] = Value::Array(tb.subs.iter().map(|s| selector_json(s, style)).collect());
+        }
+    }
+    v
+}
+
+/// the STAM JSON form of an annotation builder (for annotate_from_file)
+pub fn annotation_json(a: &Value, style: IdStyle) -> Value {
+    let id = a["id"].as_str().unwrap_or("");
+    let tb: TB = serde_json::from_value(a["target"].clone()).expect("harness: target builder");
+    let dbs: Vec<DB> = serde_json::from_value(a["data"].clone()).expect("harness: data builders");
+    let mut v = json!({"@type": "Annotation"});
+    if !id.is_empty() {
+        v["@id"] = json!(style.conc(id));
+    }
+    if tb.kind != "None" {
+        v["target"] = selector_json(&tb, style);
+    }
+    let mut data = Vec::new();
+    for db in dbs.iter() {
+        let mut d = json!({"@type": "AnnotationData"});
+        put(&mut d, "@id", ref_json(&db.id, 'D', style));
+        put(&mut d, "set", ref_json(&db.set, 'S', style));
+        put(&mut d, "key", ref_json(&db.key, 'K', style));
+        d["value"] = serde_json::to_value(value_of(&db.val, style)).expect("harness: value json");
+        data.push(d);
+    }
+    v["data"] = Value::Array(data);
+    v
+}
+
+fn id_string(r: &Ref, style: IdStyle) -> Option<String> {
+    match r.by.as_str() {
+        "id" => Some(style.conc(&r.id)),
+        "temp" => Some(format!("!{}{}", r.tl, r.tn)),
+        _ => None,
+    }
+}
+
 fn rf(v: &Value) -> Ref {
     serde_json::from_value(v.clone()).expect("harness: ref")
 }
@@ -87,6 +182,17 @@ pub fn apply(ctx: &mut Ctx, op: &Op) -> (String, i64) {
     let a = &op.a;
     if op.ev == "RoundTrip" {
         return crate::roundtrip::roundtrip(ctx, a);
+    }
+    if op.ev == "Reindex" {
+        // reindex() consumes the store
+        let old = std::mem::replace(&mut ctx.store, AnnotationStore::new(Config::default()));
+        return match catch_unwind(AssertUnwindSafe(move || old.reindex())) {
+            Ok(s) => {
+                ctx.store = s;
+                ("ok".into(), 0)
+            }
+            Err(_) => ("panic".into(), 0),
+        };
     }
     let store = &mut ctx.store;
     // argument decoding happens outside catch_unwind: a malformed input is a harness error, not a verdict
@@ -130,9 +236,22 @@ pub fn apply(ctx: &mut Ctx, op: &Op) -> (String, i64) {
                 }
             }
             "Annotate" => store.annotate(prepared_annotation.take().unwrap()).map(|h| h.as_usize() as i64 + 1),
-            "RemoveAnnotation" => store.remove_annotation(bi::<Annotation>(&rf(&a["ann"]), style)).map(|_| 0),
-            "RemoveResource" => store.remove_resource(bi::<TextResource>(&rf(&a["res"]), style)).map(|_| 0),
-            "RemoveDataset" => store.remove_dataset(bi::<AnnotationDataSet>(&rf(&a["set"]), style)).map(|_| 0),
+            // identifiers (public and temporary) are passed as strings, the form a user of the API writes
+            "RemoveAnnotation" => match id_string(&rf(&a["ann"]), style) {
+                Some(id) => store.remove_annotation(id),
+                None => store.remove_annotation(bi::<Annotation>(&rf(&a["ann"]), style)),
+            }
+            .map(|_| 0),
+            "RemoveResource" => match id_string(&rf(&a["res"]), style) {
+                Some(id) => store.remove_resource(id.as_str()),
+                None => store.remove_resource(bi::<TextResource>(&rf(&a["res"]), style)),
+            }
+            .map(|_| 0),
+            "RemoveDataset" => match id_string(&rf(&a["set"]), style) {
+                Some(id) => store.remove_dataset(id),
+                None => store.remove_dataset(bi::<AnnotationDataSet>(&rf(&a["set"]), style)),
+            }
+            .map(|_| 0),
             "RemoveData" => store
                 .remove_data(
                     bi::<AnnotationDataSet>(&rf(&a["set"]), style),
@@ -150,6 +269,22 @@ pub fn apply(ctx: &mut Ctx, op: &Op) -> (String, i64) {
             "StripAnnotationIds" => {
                 store.strip_annotation_ids();
                 Ok(0)
+            }
+            "AnnotateBatch" => {
+                let items = a["items"].as_array().expect("harness: batch items");
+                if a["via"] == "file" {
+                    let dir = std::path::PathBuf::from(format!("/verif/work/batch_{}", std::process::id()));
+                    std::fs::create_dir_all(&dir).expect("harness: batch dir");
+                    let path = dir.join("batch.annotations.json");
+                    let doc = Value::Array(items.iter().map(|x| annotation_json(x, style)).collect());
+                    std::fs::write(&path, serde_json::to_string_pretty(&doc).unwrap()).expect("harness: batch file");
+                    let r = store.annotate_from_file(path.to_str().unwrap()).map(|_| 0);
+                    let _ = std::fs::remove_dir_all(&dir);
+                    r
+                } else {
+                    let builders: Vec<AnnotationBuilder> = items.iter().map(|x| annotation_builder(x, style)).collect();
+                    store.annotate_from_iter(builders).map(|_| 0)
+                }
             }
             "Transpose" => {
                 let tag = a["tag"].as_str().unwrap_or("");
